@@ -385,7 +385,8 @@ def judge_doc(line, out, inserted, ntags):
         prev = els
         cand = [x for x in new if x[0] == "html" and x[1] == "meta" and expected_label(x) is not None]
         sib = [x for x in new if x[0] == "html" and x[1] in SIBLINGS and expected_label(x) is not None]
-        if len(cand) == 1 and expected_label(cand[0]) == lab and not sib:
+        # base/basefont/bgsound/link inserted since the last pause without raising an indicator are what the property demands
+        if len(cand) == 1 and expected_label(cand[0]) == lab:
             k += 1
             labels.append(lab)
             continue
